@@ -44,6 +44,7 @@ Lengths == { Shape(v, a, m, al, "e", 0, 0, 0) : v \in V, a \in AD, m \in ML, al 
 \* long messages (thorough): lengths far above the 32 bytes the test-suite stops at
 Long == IF Thorough THEN { Shape(v, a, m, al, "e", 0, 0, 0) : v \in V, a \in {0, 5}, m \in MLbig, al \in {0, 1} }
         ELSE { Shape(v, 3, m, 0, "e", 0, 0, 0) : v \in V, m \in {1021, 1024} }
+             \cup { Shape(v, 1, 4099, 1, "e", 0, 0, 0) : v \in V } \cup { Shape(v, 4099, 2, 0, "s", 0, 0, 0) : v \in V }
 
 \* alignment: every offset 0..7 of the output and of the input buffer, both placements
 Align == { Shape(v, a, m, al, pl, oc, om, 0) :
@@ -69,7 +70,8 @@ RoundTrip == Lengths \cup Long \cup Align \cup EdgeShapes
 (*   9 clen in 0..7                                                        *)
 (***************************************************************************)
 TamLens == IF Thorough THEN { <<a, m>> : a \in {0, 1, 4, 7, 16}, m \in {0, 1, 2, 3, 4, 5, 8, 13, 24, 31, 64} }
-           ELSE { <<a, m>> : a \in {0, 1, 7}, m \in {0, 1, 3, 4, 6, 13, 24} }
+                                \cup { <<0, 300>>, <<70, 1030>>, <<300, 5>>, <<3, 4100>> }
+           ELSE { <<a, m>> : a \in {0, 1, 7}, m \in {0, 1, 3, 4, 6, 13, 24} } \cup { <<0, 300>>, <<70, 1030>> }
 Tamper == { Shape(v, am[1], am[2], al, "e", 0, 0, t) :
               v \in V, am \in TamLens, al \in {0, 1}, t \in 1..9 }
 
